@@ -179,6 +179,26 @@ def M3(N, size):
     return ('call', 'np.sum', (norm_op('Mult', N, norm_op('Pow', size, const(3))),), ())
 
 
+def _inexact_zero_guards(conds):
+    """texts of the path conditions that compare a quantity with zero through a tolerance (np.isclose, abs(x) < eps, x < eps)"""
+    out = []
+    for tv, text in conds:
+        try:
+            t = ast.parse(text.strip(), mode='eval').body
+        except SyntaxError:
+            continue
+        for n in ast.walk(t):
+            if isinstance(n, ast.Call) and (U.call_name(n) or '') in ('np.isclose', 'math.isclose', 'np.allclose'):
+                out.append(text)
+            if isinstance(n, ast.Compare) and len(n.ops) == 1 and isinstance(n.ops[0], (ast.Lt, ast.LtE, ast.Gt, ast.GtE)):
+                for a, b in ((n.left, n.comparators[0]), (n.comparators[0], n.left)):
+                    if isinstance(a, ast.Call) and (U.call_name(a) or '') in ('abs', 'np.abs', 'np.absolute', 'np.fabs'):
+                        out.append(text)
+                    elif isinstance(b, ast.Constant) and isinstance(b.value, float) and 0 < abs(b.value) < 1 and ('V' in U.src(a) or 'oment' in U.src(a)):
+                        out.append(text)
+    return out
+
+
 def r83_r86(repo, ctx, index, states):
     from ..symfield import norm_op
     # R8.3 addSizeClasses
@@ -211,7 +231,11 @@ def r83_r86(repo, ctx, index, states):
         nonzero = [v for k, v in conds.items() if '!= 0' in k or '== 0' in k]
         n84 += 1
         if P[0] == 'call' and P[1] == 'np.zeros':
-            ctx.ok('R8.4', PB, f'{CLS}.{name}', f, 'empty new distribution is set to zeros', construct='changeSizeClasses: zero branch')
+            # the branch that drops the interpolated distribution may only be taken when its third moment is exactly zero
+            inexact = _inexact_zero_guards(o.conds)
+            ctx.check(not inexact, 'R8.4', PB, f'{CLS}.{name}', f, 'the interpolated distribution is replaced by zeros only when its third moment is exactly zero',
+                      f'the interpolated distribution is replaced by zeros under the test {inexact[0] if inexact else ""}, which also holds for small non-zero third moments '
+                      '(dilute or early-stage distributions): their particle volume is dropped by the re-mesh', construct='changeSizeClasses: zero branch')
             continue
         ok = False
         why = show(P)[:100]
